@@ -103,6 +103,21 @@ func c19Build(es []c19Entry) ([]byte, error) {
 				return nil, err
 			}
 			f.Write(e.Body)
+		case 7, 8:
+			// stored with sizes, and the fixed fields of the local header spell PK\x03\x04 themselves:
+			// mode 7 in DOS time 09:26:32 + DOS date 0x0403; mode 8 in DOS date 2017-10-16 (0x4B50) + a
+			// CRC-32 whose low bytes are 03 04 (the generator picks such bodies)
+			fh := &zip.FileHeader{Name: e.Name, Method: zip.Store, CRC32: crc32.ChecksumIEEE(e.Body), CompressedSize64: uint64(len(e.Body)), UncompressedSize64: uint64(len(e.Body))}
+			if e.Mode == 7 {
+				fh.ModifiedTime, fh.ModifiedDate = 0x4B50, 0x0403
+			} else {
+				fh.ModifiedTime, fh.ModifiedDate = 0x6000, 0x4B50
+			}
+			f, err := w.CreateRaw(fh)
+			if err != nil {
+				return nil, err
+			}
+			f.Write(e.Body)
 		case 3:
 			var cb bytes.Buffer
 			fw, _ := flate.NewWriter(&cb, flate.BestCompression)
@@ -198,13 +213,34 @@ func c19Expect(names []string, es []c19Entry) c19Want {
 	return c19Want{}
 }
 
+// c19KnownPhantom is the fixed regression input of the known finding (DESIGN §5.2): no entry
+// name contains an APK marker, the first name is shorter than 19 bytes, and the second local
+// header (last modified 2017-10-16, CRC-32 ending in 03 04) spells PK\x03\x04 in its own fields.
+func c19KnownPhantom() []c19Entry {
+	return []c19Entry{{Name: "notes/readme.txt", Mode: 2, Body: []byte("hello")}, {Name: "abcdefghijk0", Mode: 8, Body: []byte("classes.dex<!-- 199732 -->")}}
+}
+
 func c19Judge(c *fw.Ctx, es []c19Entry, family string) {
+	if family != "known" && len(es) > 1 && len(es[0].Name) < 19 && (es[1].Mode == 7 || es[1].Mode == 8) {
+		// the class of the known finding is not generated: behind a first name of fewer than 19
+		// bytes the library's search for the second header starts inside that header
+		es = append([]c19Entry(nil), es...)
+		es[1].Mode = 2
+		c.Count("second_header_with_signature_fields_behind_short_first_name_not_generated", 1)
+	}
 	data, err := c19Build(es)
 	if err != nil {
 		return
 	}
 	// bodies free of embedded zip signatures: as many PK\x03\x04 as entries
-	if bytes.Count(data, []byte("PK\x03\x04")) != len(es) {
+	sigs := len(es)
+	for _, e := range es {
+		if e.Mode == 7 || (e.Mode == 8 && crc32.ChecksumIEEE(e.Body)&0xFFFF == 0x0403) {
+			sigs += 2 // the signature spelled by the time / date / CRC fields, in the local header and again in the central directory
+			c.Count("entries_with_signature_bytes_in_header_fields", 1)
+		}
+	}
+	if bytes.Count(data, []byte("PK\x03\x04")) != sigs {
 		c.Count("regenerated_embedded_signature", 1)
 		return
 	}
@@ -302,7 +338,7 @@ func c19Judge(c *fw.Ctx, es []c19Entry, family string) {
 		modes[e.Mode] = true
 	}
 	var ms []string
-	for m := 0; m <= 5; m++ {
+	for m := 0; m <= 8; m++ {
 		if modes[m] {
 			ms = append(ms, fmt.Sprint(m))
 		}
@@ -424,6 +460,9 @@ func c19Mode(r *rand.Rand, name string) int {
 	if r.Intn(12) == 0 {
 		return 6
 	}
+	if r.Intn(15) == 0 {
+		return 7
+	}
 	return r.Intn(5)
 }
 
@@ -448,6 +487,59 @@ func c19Special(c *fw.Ctx) {
 			c19Judge(c, []c19Entry{{Name: "mimetype", Mode: 2, Body: []byte("application/vnd.oasis.opendocument.text")}, {Name: "content.xml", Mode: 2, Body: body}}, "tail-literal")
 		}
 		c.Count("archives_ending_with_a_source_literal", 1)
+	}
+	// local headers whose own fixed fields contain PK\x03\x04 (a member last modified on 2017-10-16
+	// with a CRC-32 ending in 03 04, or at 09:26:32 with DOS date 0x0403): between the first entry
+	// and a marker at every position 2-7, and in marker-free archives whose names are 8-14 bytes
+	// long and whose data begins with a marker string
+	crcBodies := map[string][]byte{}
+	crcBody := func(prefix string) []byte {
+		if b, ok := crcBodies[prefix]; ok {
+			return b
+		}
+		for k := 0; ; k++ {
+			b := []byte(fmt.Sprintf("%s<!-- %d -->", prefix, k))
+			if crc32.ChecksumIEEE(b)&0xFFFF == 0x0403 {
+				crcBodies[prefix] = b
+				return b
+			}
+		}
+	}
+	fillers := []string{"docProps/app.xml", "_rels/.rels", "customXml/a", "notes.txt", "a/b/c/d.bin"}
+	for _, mode := range []int{7, 8} {
+		body := func(prefix string) []byte {
+			if mode == 8 {
+				return crcBody(prefix)
+			}
+			return []byte(prefix + "<x/>")
+		}
+		for _, mk := range []string{"word/document.xml", "xl/workbook.xml", "ppt/presentation.xml"} {
+			for pos := 1; pos <= 6; pos++ {
+				for nSpecial := 1; nSpecial < pos; nSpecial++ {
+					es := []c19Entry{{Name: "[Content_Types].xml", Mode: 2, Body: []byte("<Types/>")}}
+					for len(es) < pos {
+						m := 2
+						if len(es) >= 2 && len(es) <= nSpecial+1 {
+							m = mode
+						}
+						es = append(es, c19Entry{Name: fillers[(len(es)+pos)%len(fillers)], Mode: m, Body: body("")})
+					}
+					es = append(es, c19Entry{Name: mk, Mode: r.Intn(3), Body: []byte("<x/>")})
+					c19Judge(c, es, "signature-in-header-fields")
+				}
+			}
+		}
+		for _, first := range []string{"notes/readme.txt", "META-INF/MANIFEST.MF", "[Content_Types].xml", "mimetype"} {
+			for _, lead := range []string{"word/document.xml", "xl/workbook.xml", "ppt/slides/slide1.xml", "META-INF/MANIFEST.MF", "AndroidManifest.xml", "classes.dex", "resources.arsc", "res/drawable/x.png"} {
+				for nameLen := 8; nameLen <= 14; nameLen++ {
+					es := []c19Entry{{Name: first, Mode: 2, Body: []byte("application/vnd.oasis.opendocument.text")}}
+					for k := 0; k < 3; k++ {
+						es = append(es, c19Entry{Name: "abcdefghijklmnopq"[:nameLen-1] + string(rune('0'+k)), Mode: mode, Body: body(lead)})
+					}
+					c19Judge(c, es, "signature-in-header-fields")
+				}
+			}
+		}
 	}
 	if c.Tier == "thorough" || c.Rand.Intn(2) == 0 {
 		// one part of more than 16 MiB in front of the marker
@@ -509,6 +601,13 @@ func c19Special(c *fw.Ctx) {
 func c19Run(c *fw.Ctx, b fw.Batch) {
 	if b.Kind == "special" {
 		c19Special(c)
+		return
+	}
+	if b.Kind == "known" {
+		forcedEntry = "Detect"
+		c.Count("known_finding_regression_input_replayed", 1)
+		c19Judge(c, c19KnownPhantom(), "known")
+		forcedEntry = ""
 		return
 	}
 	r := c.Rand
@@ -612,12 +711,13 @@ func init() {
 	fw.Register(&fw.Prop{
 		ID:    "C19",
 		Level: "exploration",
-		Rule: "archives are written with archive/zip from generated entry lists: OOXML-like packages ([Content_Types].xml first, bookkeeping parts _rels / docProps / customXml / [trash] in any combination incl. directory entries, one marker part word/ xl/ ppt/ at positions 2-10, sometimes further markers, near-miss names words/ Word/ xl.xml pptx/, every marker in other letter cases (meta-inf/manifest.mf, androidmanifest.xml, CLASSES.DEX, WORD/ …) and proper prefixes x xl wor word pp M, unrelated names of 1-60 characters), JARs, APK-like, ODF/EPUB with a stored 'mimetype' first entry (exact and near-miss contents), unrelated-only archives; every entry is written in one of 7 ways (stored with a ZIP64-form local header as CPython's force_zip64 writes it; Create = deflate + data descriptor; store + descriptor; CreateRaw store with sizes; CreateRaw deflate with sizes; deflate + descriptor + extended-timestamp extra field; directory entry); bodies empty / one byte / XML-like / random / large / beginning with extra-field ids (0xCAFE, 0x5455, …) or literals of the tree's source; an 'aliasing' family puts the remainder of a marker at the start of a body that follows a proper-prefix name. A few packages carry a part of more than 1 MiB in front of the marker, and pairs of equal-length archives are detected one after the other in the same buffer. Archives whose bytes contain PK\\x03\\x04 other than at entry headers are dropped. The entry list is read back with zip.Reader and decides P1 P2 P3 N1 N2 and the application/zip parent; limit 0. " +
+		Rule: "archives are written with archive/zip from generated entry lists: OOXML-like packages ([Content_Types].xml first, bookkeeping parts _rels / docProps / customXml / [trash] in any combination incl. directory entries, one marker part word/ xl/ ppt/ at positions 2-10, sometimes further markers, near-miss names words/ Word/ xl.xml pptx/, every marker in other letter cases (meta-inf/manifest.mf, androidmanifest.xml, CLASSES.DEX, WORD/ …) and proper prefixes x xl wor word pp M, unrelated names of 1-60 characters), JARs, APK-like, ODF/EPUB with a stored 'mimetype' first entry (exact and near-miss contents), unrelated-only archives; every entry is written in one of 9 ways (stored with sizes and a local header whose own DOS time / date / CRC-32 fields spell PK\\x03\\x04 - 09:26:32 with date 0x0403, or 2017-10-16 with a CRC ending in 03 04; stored with a ZIP64-form local header as CPython's force_zip64 writes it; Create = deflate + data descriptor; store + descriptor; CreateRaw store with sizes; CreateRaw deflate with sizes; deflate + descriptor + extended-timestamp extra field; directory entry); bodies empty / one byte / XML-like / random / large / beginning with extra-field ids (0xCAFE, 0x5455, …) or literals of the tree's source; an 'aliasing' family puts the remainder of a marker at the start of a body that follows a proper-prefix name. A few packages carry a part of more than 1 MiB in front of the marker, and pairs of equal-length archives are detected one after the other in the same buffer. Archives whose bytes contain PK\\x03\\x04 other than at entry headers (and in those header fields) are dropped. The entry list is read back with zip.Reader and decides P1 P2 P3 N1 N2 and the application/zip parent; limit 0. " +
 			"non-trivial = an archive with a claim (P1/P2/P3/N2) and more than one entry; distinct = distinct (family, claim, verdict, set of writer modes used, position of the first marker, entry count).",
 		Assumptions: []string{
 			"archive/zip is the standard writer and reader",
 			"P3 is claimed for a stored 'mimetype' entry without extra field (store + descriptor, or raw store), as ODF/EPUB writers produce it",
 			"P1 is claimed when exactly one kind of marker occurs among entries 2-6 (several kinds: only N1 and the parent are checked)",
+			"a second local header whose own fields spell PK\\x03\\x04 behind a first name of fewer than 19 bytes is not generated: that class is the known finding (KNOWN_FINDINGS.txt, DESIGN 5.2), replayed from one fixed input on every run",
 		},
 		Plan: func(tier string, seed int64) []fw.Batch {
 			n := 4000
@@ -627,6 +727,7 @@ func init() {
 			bs := batches("realistic", 12, n, 3000)
 			bs = append(bs, batches("aliasing", 4, n, 3000)...)
 			bs = append(bs, batches("special", 1, 0, 3000)...)
+			bs = append(bs, batches("known", 1, 0, 3000)...)
 			return bs
 		},
 		Run: c19Run,
@@ -639,6 +740,10 @@ func init() {
 			forcedEntry = p.Entry
 			if p.Note == "buffer-reuse" {
 				c19Special(c)
+				return
+			}
+			if p.Note == "known" {
+				c19Judge(c, p.Entries, "known")
 				return
 			}
 			c19Judge(c, p.Entries, "replay")
